@@ -41,7 +41,7 @@ def shards(tier):
 
 def floors(tier):
     f = {"cases": 15000, "cases_3plus_keywords_failing": 3000, "cases_2plus_errors_one_keyword": 1000,
-         "rerooted_cases": 3000, "cases_with_references": 2000, "cases_exotic_containers": 3000, "cases_user_keywords_reporting_nothing": 1500, "same_reference_text_under_two_scopes": 300}
+         "rerooted_cases": 3000, "cases_with_references": 2000, "cases_exotic_containers": 3000, "cases_user_keywords_reporting_nothing": 1500, "same_reference_text_under_two_scopes": 300, "cases_names_shared_between_siblings": 1500}
     for k in MULTI:
         f["multi:" + k] = 100
         f["decomposed:" + k] = 500
@@ -381,6 +381,43 @@ def multi_violation_schema(rng, d):
     return s
 
 
+ANNOTATIONS = [("default", lambda r: r.choice([0, "d", None, [], {}, False, 80])), ("title", lambda r: "t"), ("description", lambda r: "about"),
+               ("examples", lambda r: [1, "e"]), ("readOnly", lambda r: True), ("$comment", lambda r: "c"), ("x-note", lambda r: {"default": 1})]
+
+
+def share_names_and_annotate(rng, d, S):
+    """The same member names in every keyword that lists names (properties, required, dependencies on both sides), and
+    annotations (default, title, examples, ...) inside the sibling subschemas: what one keyword reports about a name does
+    not depend on what a sibling says, or merely notes, about the same name."""
+    S = dict(S)
+    names = ["host", "port", "tls", "a", "zz1"]
+    props = dict(S.get("properties") or {}) if isinstance(S.get("properties"), dict) else {}
+    for n in names[:rng.randrange(2, 6)]:
+        sub = props.get(n)
+        sub = dict(sub) if isinstance(sub, dict) else {"type": rng.choice(["string", "integer", "boolean"])}
+        for an, mk in rng.sample(ANNOTATIONS, rng.randrange(1, 4)):
+            sub[an] = mk(rng)
+        if d == 3 and rng.random() < 0.6:
+            sub["required"] = True
+        props[n] = sub
+    S["properties"] = props
+    pool = list(props)
+    if d != 3:
+        S["required"] = rng.sample(pool, min(len(pool), rng.randrange(2, 5))) + (["missing-everywhere"] if rng.random() < 0.5 else [])
+    deps = {}
+    for n in rng.sample(pool, min(len(pool), 2)):
+        others = [m for m in pool if m != n]
+        if rng.random() < 0.5 and others:
+            deps[n] = rng.sample(others, min(len(others), 2)) if (d != 3 or rng.random() < 0.5) else others[0]
+        else:
+            deps[n] = {"properties": {m: {"default": 1, "type": "null"} for m in others[:2]}, **({"required": others[:2]} if d != 3 else {})}
+    S["dependencies"] = deps
+    if rng.random() < 0.5:
+        S["additionalProperties"] = rng.choice([False, {"type": "null", "default": None}])
+    insts = [{}, {pool[0]: 1}, {n: "v" for n in pool[:2]}, {n: None for n in pool}, {pool[-1]: True, "extra": 1}, {n: 5 for n in pool[1:]}]
+    return S, insts
+
+
 def run(ctx):
     impl.quiet()
     rng = ctx.rng
@@ -400,6 +437,16 @@ def run(ctx):
             from vf.gen.values import EXOTIC_KINDS
             for j, inst in enumerate(batch):
                 compare(ctx, d, S, inst, wrap="defaultdict" if j % 2 == 0 else EXOTIC_KINDS[1 + (i // 2 + j) % 3])
+        if i % 4 == 3 and isinstance(S, dict) and "$ref" not in S:
+            S4, insts4 = share_names_and_annotate(rng, d, S)
+            try:
+                ok4 = impl.accepts(d, S4)
+            except Exception:
+                ok4 = False
+            if ok4:
+                for inst in insts4:
+                    ctx.count("cases_names_shared_between_siblings")
+                    compare(ctx, d, S4, inst)
         if i % 5 == 1:
             S3, store3, inst3 = two_scope_case(rng, d)
             ctx.count("same_reference_text_under_two_scopes")
